@@ -17,8 +17,8 @@
      pure K inp mode q               specification: attribute q as a plain function of the inputs (no Preloads, no cache)
      [code]                          the code that exists (copy.copy kept; repaired mapping data_vector);
      [no_copy], [unguarded]          the two mutants *)
-From Coq Require Import List Arith Bool ZArith.
-From PAV Require Import Base.Res Base.Check Model.C15 Proofs.C15.
+From Coq Require Import List Arith Bool ZArith Reals.
+From PAV Require Import Base.Res Base.Check Base.NumOps Model.C03 Model.C04 Model.C04Lib Proofs.C04 Model.C15 Proofs.C15 Model.C15k Proofs.C15k Proofs.C15f.
 Import ListNotations.
 
 (* 1. Transparency: for every subset of slots filled with fresh values, every sequence of attribute reads returns
@@ -70,7 +70,8 @@ Theorem C15_formalism_choice_value_free :
   forall (T : Type) (K : kernels T) (inp : input T) (w : wtilde T),
     p_dv K inp (Some w) = p_dv K inp None ->
     p_curv K inp (Some w) = p_curv K inp None ->
-    (forall s, mapped_wt K inp (lf_fresh K inp) s = mapped_map K inp (omm_list_of K inp (lf_fresh K inp)) s) ->
+    (forall s, p_rec K inp None = Ok s ->
+               mapped_wt K inp (lf_fresh K inp) s = mapped_map K inp (omm_list_of K inp (lf_fresh K inp)) s) ->
     forall q, pure K inp (Some w) q = pure K inp None q.
 Proof. exact formalism_choice_value_free. Qed.
 
@@ -132,7 +133,8 @@ Proof. exact (conj pB_fresh pC_fresh). Qed.
 (* theorem 6 *)
 Example C15_hyps_formalism :
   p_dv zk2 inpD (Some (ds_wt zds)) = p_dv zk2 inpD None /\ p_curv zk2 inpD (Some (ds_wt zds)) = p_curv zk2 inpD None
-  /\ (forall s, mapped_wt zk2 inpD (lf_fresh zk2 inpD) s = mapped_map zk2 inpD (omm_list_of zk2 inpD (lf_fresh zk2 inpD)) s).
+  /\ (forall s, p_rec zk2 inpD None = Ok s ->
+                mapped_wt zk2 inpD (lf_fresh zk2 inpD) s = mapped_map zk2 inpD (omm_list_of zk2 inpD (lf_fresh zk2 inpD)) s).
 Proof. exact formalism_hyps_hold. Qed.
 (* theorem 7 *)
 Example C15_hyps_noise : choose_wt inpA pA = true /\ s_wt pA = Some (ds_wt zds).
@@ -141,6 +143,107 @@ Proof. split; reflexivity. Qed.
 (* theorem 7b *)
 Example C15_hyps_dvm_shortcut : shape_dv_wt zk /\ has_func inpD = false.
 Proof. exact (conj zk_shape inpD_no_func). Qed.
+
+(* ================================================================================================================== *)
+(* 9. The kernel identities are THEOREMS for the concrete kernels.  [KR c m Kp encf dec slv ldc ldr] (Model/C15k.v) is the kernel
+      record filled with the C04 / C03 model of the real routines, over the reals:  c = the Convolver built from mask m and PSF Kp,
+      encf = the unique-mapping encoding of a mapper, dec = the (curvature_preload, indexes, lengths) triple of a w_tilde object,
+      slv / ldc / ldr = solver and log-determinants (arbitrary).  [wf_input c encf np inp]: np data pixels; every mapper's mapping
+      matrix is np x P, has no operated override and its encoding stands for it; every function object's operated matrix is np x P;
+      the convolver's frames address np pixels.  Nothing is assumed about noise, data or the PSF values. *)
+Theorem C15_kernel_identities_hold_for_C04_kernels :
+  forall (c : @convolver ROps) (m : mask) (Kp : @kernel ROps) (encf : list (list R) -> @C04.enc ROps)
+         (dec : list (list R) -> list R * list nat * list nat) slv ldc ldr (inp : input R) (np : nat),
+    wf_input c encf np inp ->
+    forall mode p, laws_for (KR c m Kp encf dec slv ldc ldr) inp mode p.
+Proof. exact c04_laws_for. Qed.
+(* ... hence transparency, reuse and "every read is the specification value" without any kernel hypothesis *)
+Theorem C15_preload_transparent_C04_kernels :
+  forall (c : @convolver ROps) (m : mask) (Kp : @kernel ROps) encf dec slv ldc ldr (inp : input R) (np : nat),
+    wf_input c encf np inp ->
+    forall (p : pstore R) (qs : list qty),
+    factory_slots_neutral inp p ->
+    (forall mode, make_inversion (KR c m Kp encf dec slv ldc ldr) inp p = Ok mode -> fresh_store (KR c m Kp encf dec slv ldc ldr) inp mode p) ->
+    fst (run_inversion (KR c m Kp encf dec slv ldc ldr) inp code p qs) = fst (run_inversion (KR c m Kp encf dec slv ldc ldr) inp code empty_store qs).
+Proof. exact c04_preload_transparent. Qed.
+Theorem C15_reuse_any_history_C04_kernels :
+  forall (c : @convolver ROps) (m : mask) (Kp : @kernel ROps) encf dec slv ldc ldr (inp : input R) (np : nat),
+    wf_input c encf np inp ->
+    forall (p : pstore R) (h : list (list qty)),
+    factory_slots_neutral inp p ->
+    (forall mode, make_inversion (KR c m Kp encf dec slv ldc ldr) inp p = Ok mode -> fresh_store (KR c m Kp encf dec slv ldc ldr) inp mode p) ->
+    fst (run_history (KR c m Kp encf dec slv ldc ldr) inp code p h)
+    = map (fun qs => fst (run_inversion (KR c m Kp encf dec slv ldc ldr) inp code empty_store qs)) h /\
+    frozen_eq p (snd (run_history (KR c m Kp encf dec slv ldc ldr) inp code p h)).
+Proof. exact c04_reuse_any_history. Qed.
+Theorem C15_every_read_is_specified_C04_kernels :
+  forall (c : @convolver ROps) (m : mask) (Kp : @kernel ROps) encf dec slv ldc ldr (inp : input R) (np : nat),
+    wf_input c encf np inp ->
+    forall mode (h : list (list qty)) (p : pstore R),
+    make_inversion (KR c m Kp encf dec slv ldc ldr) inp p = Ok mode -> fresh_store (KR c m Kp encf dec slv ldc ldr) inp mode p ->
+    fst (run_history (KR c m Kp encf dec slv ldc ldr) inp code p h) = map (fun qs => Ok (map (pure (KR c m Kp encf dec slv ldc ldr) inp mode) qs)) h.
+Proof. exact c04_every_read_is_specified. Qed.
+(* the identity behind Preloads.data_linear_func_matrix_dict, for every encoding, frame table and weight matrix *)
+Theorem C15_data_linear_func_matrix_identity :
+  forall (e : @C04.enc ROps) (P : nat) (cw : list (list R)) (frames : list (list (nat * R))),
+    enc_ok e P -> length (e_dw e) = length cw -> (0 < length cw)%nat ->
+    @off_via_dlfm ROps (@data_linear_func_matrix ROps cw frames) e P = @off_mapper_func ROps e P cw frames.
+Proof. exact off_via_dlfm_eq_off_mapper_func. Qed.
+(* the mapping class's short cut, for arbitrary kernels: two laws of the data-vector kernel suffice *)
+Theorem C15_dvm_shortcut_mapping :
+  forall (T : Type) (K : kernels T) (inp : input T),
+    shape_dv_map K inp -> hcat_dv_map K inp -> mappers_plain inp -> has_func inp = false -> p_dvm K inp None = p_dv K inp None.
+Proof. exact dvm_law_map. Qed.
+
+(* 10. The factory's choice between the formalisms is value-free for the concrete kernels: the structural code of Model/C15.v run
+       with the C04 kernels computes, for the translated object list, the very lists D_wt / D_mapping / F_wt / F_mapping of the
+       C04 model (two independently written models of w_tilde.py / mapping.py agree), and C04's theorems make them equal.
+       Hypotheses: rectangular mask, Convolver.__init__ succeeded, well-formed objects, one data / noise value per pixel, strictly
+       positive noise, the solver returns one value per parameter, dataset.w_tilde holds the preload of this noise map and PSF
+       and passes check_noise_map. *)
+Theorem C15_formalism_choice_value_free_C04_kernels :
+  forall (c : @convolver ROps) (m : mask) (Kp : @kernel ROps) encf dec slv ldc ldr (inp : input R) (np : nat),
+    wf_input c encf np inp -> objs inp <> [] ->
+    forall (w : wtilde R) (pre : list R) (idx lens : list nat),
+    dec (wt_w w) = (pre, idx, lens) ->
+    rectb m = true -> @convolver_init ROps m Kp = Ok c -> np = length (unmasked m) ->
+    length (C15.n inp) = np -> (forall i, (i < np)%nat -> (0 < nth i (C15.n inp) 0)%R) ->
+    @preload ROps (@native ROps m (C15.n inp)) Kp (unmasked m) = (pre, idx, lens) ->
+    length (C15.d inp) = np ->
+    (forall A b sv, slv A b = Ok sv -> length sv = length b) ->
+    forall q, pure (KR c m Kp encf dec slv ldc ldr) inp (Some w) q = pure (KR c m Kp encf dec slv ldc ldr) inp None q.
+Proof. exact c04_formalism_choice_value_free. Qed.
+Theorem C15_factory_choice_value_free_C04_kernels :
+  forall (c : @convolver ROps) (m : mask) (Kp : @kernel ROps) encf dec slv ldc ldr (inp : input R),
+    rectb m = true -> @convolver_init ROps m Kp = Ok c ->
+    wf_input c encf (length (unmasked m)) inp -> in_objs inp <> [] ->
+    length (ds_d (in_ds inp)) = length (unmasked m) -> length (ds_n (in_ds inp)) = length (unmasked m) ->
+    (forall i, (i < length (unmasked m))%nat -> (0 < nth i (ds_n (in_ds inp)) 0)%R) ->
+    (forall A b sv, slv A b = Ok sv -> length sv = length b) ->
+    dec (wt_w (ds_wt (in_ds inp))) = @preload ROps (@native ROps m (ds_n (in_ds inp))) Kp (unmasked m) ->
+    wt_nv (ds_wt (in_ds inp)) = hd 0%R (ds_n (in_ds inp)) ->
+    forall qs,
+    fst (run_inversion (KR c m Kp encf dec slv ldc ldr) (with_wt true inp) code empty_store qs)
+    = fst (run_inversion (KR c m Kp encf dec slv ldc ldr) (with_wt false inp) code empty_store qs).
+Proof. exact c04_factory_choice_value_free. Qed.
+
+(* non-vacuity of the hypotheses of 9 and 10: (a) every mapping matrix has an encoding that stands for it (the dense one), so
+   [encf := dense_enc] meets the encoding clauses of [wf_input] for every mapper; (b) a 3x4 mask with two unmasked pixels, a signed
+   3x3 PSF, noise (1, 2), a function list with an operated override followed by a regularized mapper meets every hypothesis *)
+Example C15_hyps_encoding_exists :
+  forall (M : list (list R)) n P, shape n P M -> (0 < n)%nat ->
+    enc_ok (@dense_enc ROps M) P /\ represents (@dense_enc ROps M) M n P /\
+    length (e_dw (@dense_enc ROps M)) = n /\ length (e_du (@dense_enc ROps M)) = n /\ length M = n /\ @C04.ncols ROps M = P.
+Proof. exact dense_enc_wf. Qed.
+Example C15_hyps_C04_kernels :
+  rectb exM = true /\ @convolver_init ROps exM exK = Ok exC /\
+  wf_input exC (@dense_enc ROps) (length (unmasked exM)) exInp /\ in_objs exInp <> [] /\
+  length (ds_d (in_ds exInp)) = length (unmasked exM) /\ length (ds_n (in_ds exInp)) = length (unmasked exM) /\
+  (forall i, (i < length (unmasked exM))%nat -> (0 < nth i (ds_n (in_ds exInp)) 0)%R) /\
+  (forall A b sv, exSlv A b = Ok sv -> length sv = length b) /\
+  exDec (wt_w (ds_wt (in_ds exInp))) = @preload ROps (@native ROps exM (ds_n (in_ds exInp))) exK (unmasked exM) /\
+  wt_nv (ds_wt (in_ds exInp)) = hd 0%R (ds_n (in_ds exInp)).
+Proof. exact ex_choice_hyps. Qed.
 
 Print Assumptions C15_preload_transparent.
 Print Assumptions C15_dvm_shortcut_wtilde.
@@ -154,3 +257,11 @@ Print Assumptions C15_raise_is_stable.
 Print Assumptions C15_no_copy_refuted.
 Print Assumptions C15_unguarded_refuted.
 Print Assumptions C15_completed_in_place.
+Print Assumptions C15_kernel_identities_hold_for_C04_kernels.
+Print Assumptions C15_preload_transparent_C04_kernels.
+Print Assumptions C15_reuse_any_history_C04_kernels.
+Print Assumptions C15_every_read_is_specified_C04_kernels.
+Print Assumptions C15_data_linear_func_matrix_identity.
+Print Assumptions C15_dvm_shortcut_mapping.
+Print Assumptions C15_formalism_choice_value_free_C04_kernels.
+Print Assumptions C15_factory_choice_value_free_C04_kernels.
